@@ -814,23 +814,27 @@ def transition_lemmas(ctx, fo):
                 is_none = any(c[0] == 'switch' and c[2] == 0 for c in op_conds) or \
                     any(c[0] == 'cond' and c[2] is False and op_p in repr(c[1]) and c[1][0] == 'sym' for c in op_conds)
                 from ..poly import subst
-                try:
-                    if sign_enum is None:
-                        v_first = subst(subst(got, sign_p, n.const(1)), const_p, n.const(0))
-                        v_div = subst(subst(got, sign_p, n.const(1)), const_p, n.const(1))
-                    else:
-                        # the value this path would compute for the "+" variant: the sign enters as a factor +-1
-                        v_first = subst(got, const_p, n.const(0)) * s_
-                        v_div = subst(got, const_p, n.const(1)) * s_
-                except Exception:
+                def _try(fn):
+                    try:
+                        return fn()
+                    except Exception:      # noqa: BLE001  (a value that is not defined at that point, e.g. a division by the constant)
+                        return None
+                if sign_enum is None:
+                    v_first = _try(lambda: subst(subst(got, sign_p, n.const(1)), const_p, n.const(0)))
+                    v_div = _try(lambda: subst(subst(got, sign_p, n.const(1)), const_p, n.const(1)))
+                else:
+                    # the value this path would compute for the "+" variant: the sign enters as a factor +-1
+                    v_first = _try(lambda: subst(got, const_p, n.const(0)) * s_)
+                    v_div = _try(lambda: subst(got, const_p, n.const(1)) * s_)
+                if v_first is None and v_div is None:
                     continue
                 digit_only = lambda rf: all(a not in (sign_p, const_p) and not a.startswith('v') for a in rf.atoms())     # noqa: E731
                 n_digit += 1
-                if got.equals(s_ * v_first) and digit_only(v_first) and not v_first.is_zero():
+                if v_first is not None and got.equals(s_ * v_first) and digit_only(v_first) and not v_first.is_zero():
                     ok = is_none and is_pos(dl.get(sign_p, S))
                     rep.check(ok, 'R3', 'digit-step:first-digit', where(fo, some_t), 'constant := sign * digit; sign consumed',
                               'constant := sign*digit happens while an operator is pending, or the sign is not consumed')
-                elif (got.equals(s_ * C * v_div) or got.equals(C * v_div)) and digit_only(v_div):
+                elif v_div is not None and (got.equals(s_ * C * v_div) or got.equals(C * v_div)) and digit_only(v_div):
                     slash = any(c[0] == 'cond' and c[2] and '47' in repr(c[1]) for c in o.pc) or \
                         any(c[0] == 'switch' and c[2] == 47 for c in o.pc) or not is_none
                     if slash and any('47' in repr(c[1]) or c[2] == 47 for c in o.pc if c[0] in ('cond', 'switch')):
